@@ -21,7 +21,7 @@ RULE = ("random well-formed grammars (2-6 rules, 1-4 alternatives, depth <= 3; e
         "repeated with all memo flags flipped and with every group lifted into a named rule; a left-fold oracle checks the common left-recursive "
         "operator shape; a case = (grammar, token string); distinct non-trivial = distinct (grammar, string) pairs with a non-empty string")
 ASSUMPTIONS = ["well-formedness side conditions of the property are enforced by construction and re-checked by an own nullable/left-recursion analysis",
-               "alphabetic literals never occur only under && (keyword registration is a tokenizer convention)",
+               
                "reference semantics of left recursion = seed growing at the smallest-named rule of the cycle"]
 
 SYMS = {"a": ("NAME", "a"), "b": ("NAME", "b"), "x": ("NAME", "x"), "1": ("NUMBER", "1"), "+": ("OP", "+"),
@@ -107,7 +107,7 @@ class G:
         if r < 0.88:
             return Cut(), False
         if r < 0.92:
-            return Forced(Lit("+")), True
+            return Forced(Lit(rnd.choice(self.hard))), True  # (also an alphabetic literal: '&&' may be the only use of a keyword)
         if consumed:
             return Ref(f"r{rnd.randint(0, self.n - 1)}"), True  # back reference after consumption: right recursion
         return self.nonnull_atom(i, depth), True
@@ -445,6 +445,33 @@ def _features(rules):
     return out
 
 
+def keyword_family(acc, scratch):
+    """an alphabetic literal is a keyword wherever it is written - also when its only use is a forced token or a lookahead operand -
+    and a keyword token is never a NAME; expected outcomes are known by construction"""
+    from ..pegref import HEADER
+
+    cases = [
+        ("start: a=NAME &&'if' b=NAME ENDMARKER { ('S', a.string, b.string) }\n", {"aka": "ok", "kkk": "fail", "aaa": "forced", "akk": "fail", "kka": "fail", "ak": "fail"}),
+        ("start: a=NAME !'if' b=NAME ENDMARKER { ('S', a.string, b.string) }\n", {"aa": "ok", "ak": "fail", "ka": "fail"}),
+        ("start: a=NAME b=[&&'if'] ENDMARKER { ('S', a.string) }\n", {"ak": "ok", "kk": "fail", "aa": "forced"}),
+        ("start: a=r ENDMARKER { ('S', a) }\nr: x=NAME &'if' 'if' { ('r', x.string) } | 'b'\n", {"ak": "ok", "kk": "fail", "b": "ok", "aa": "fail"}),
+    ]
+    for body, words in cases:
+        text = "\n".join(HEADER) + "\n" + body
+        try:
+            cls, _ = _gen_text(text, scratch)
+        except BaseException as e:  # noqa: BLE001
+            acc.violation("generator-crashed-on-well-formed-grammar", {"grammar": text}, {"error": f"{type(e).__name__}: {e}"})
+            continue
+        for word, want in words.items():
+            got = run_gen(cls, mk_tokens(word))
+            acc.evals += 1
+            acc.count("keyword_checks")
+            acc.nontrivial(base.h64("kw", body, word))
+            if got[0] != want:
+                acc.violation("generated-parser-differs-from-peg-semantics", {"grammar": text, "word": word}, {"generated": repr(got)[:200], "reference": want})
+
+
 def fold_family(acc, rnd, scratch):
     """left-recursive operator rules against a left fold (shares nothing with seed growing)"""
     variants = [
@@ -503,6 +530,7 @@ def run_shard(shard):
         words += [w for w in ("".join(t) for l in range(1, 4) for t in itertools.product("abx1+ki", repeat=l)) if w not in seen_words]
         if shard["idx"] == 0:
             fold_family(acc, rnd, scratch)
+            keyword_family(acc, scratch)
         for _ in range(shard["grammars"]):
             g = G(rnd, rnd.randint(2, 6))
             rules = g.build()
